@@ -92,6 +92,20 @@ theorem C20_pool_discipline :
     before "socketPool.Get" "$.Reset" Gen.GetSocket_calls = true := by
   decide
 
+/-- **C20, there is no other way into or out of a pool**: the `Get`/`Put` calls on the four object
+    pools (`messagePool`, `argsPool`, `ctxPool`, `socketPool`), wherever they occur in their packages
+    (function bodies, deferred functions, closures), are exactly the eight sites inside the functions
+    whose reset discipline `C20_pool_discipline` and `C20_fields_covered` establish, and the pool
+    variables are used in no other way. A `Put` added on an error path (for instance a deferred
+    `messagePool.Put(m)` in `GetMessage` for a setting that panics, which skips `Reset`) changes the
+    regenerated list and this theorem no longer checks. -/
+theorem C20_pool_sites_exact :
+    Gen.fields_missing = [] ∧
+    Gen.pool_sites = ["argsPool.Get@AcquireArgs", "argsPool.Put@ReleaseArgs", "ctxPool.Get@peer.getContext",
+      "ctxPool.Put@peer.putContext", "messagePool.Get@GetMessage", "messagePool.Put@PutMessage",
+      "socketPool.Get@GetSocket", "socketPool.Put@socket.Close"] := by
+  decide
+
 /-! ## messages -/
 
 /-- **C20 for messages, first use**: whatever a message held (header fields, status, metadata pairs
